@@ -66,7 +66,7 @@ func genMedia(r *rng.R, produces []string) string {
 	case x < 48:
 		return r.Pick(produces)
 	case x < 60:
-		return r.Pick(Registry)
+		return r.Pick(AllMedia)
 	case x < 74:
 		return r.Pick(otherMedia)
 	case x < 89:
@@ -109,13 +109,13 @@ func Gen(r *rng.R) *Case {
 	if r.Chance(1, 3) {
 		c.Router = "jsr"
 	}
-	perm := r.Perm(len(Registry))
+	perm := r.Perm(len(AllMedia))
 	n := 1 + r.Intn(3)
 	if r.Chance(1, 8) {
 		n = 4
 	}
 	for _, i := range perm[:n] {
-		c.Produces = append(c.Produces, Registry[i])
+		c.Produces = append(c.Produces, AllMedia[i])
 	}
 	c.Default = defaults[r.Intn(len(defaults))]
 	switch x := r.Intn(100); {
